@@ -28,7 +28,7 @@ opt = re.search(r"(-O\d)", gline)
 flags = "-std=c++11 %s -I%s -I%s/_b -I%s/.cache/inc -pthread" % (opt.group(1) if opt else "", wt, wt, ROOT)
 # backend / configuration switches and libraries named on the demo's own compile line
 flags += " " + " ".join(t for t in gline.split() if re.match(r"-(D\w+(=\S+)?|f[a-z-]+(=\S+)?|m[a-z0-9.-]+)$", t))
-libs = " ".join(t for t in gline.split() if re.match(r"-l\w+$", t))
+libs = " ".join(t for t in gline.split() if re.match(r"-l\w+$", t) or t.startswith("-Wl,"))
 def demo(tag):
     exe = "/tmp/seed_demo_%s_%s_%s" % (pid, k, tag.replace(" ", "_"))
     rc, out = step("compile demo (%s)" % tag, "g++ %s %s/demo.cpp %s -o %s %s" % (flags, src, " ".join(extra), exe, libs))
